@@ -1,0 +1,45 @@
+//go:build verif
+
+package protocol
+
+import (
+	"time"
+)
+
+// Exports for the external verification harness (property C03). Add-only; compiled only with -tags verif.
+
+const (
+	VerifC03SegmentTreeCapacity      = segmentTreeCapacity
+	VerifC03SegmentChanCapacity      = segmentChanCapacity
+	VerifC03TxCountLimit             = txCountLimit
+	VerifC03MinWindowSize            = minWindowSize
+	VerifC03MaxWindowSize            = maxWindowSize
+	VerifC03PeriodicOutputIntervalNs = int64(periodicOutputInterval)
+	VerifC03BackPressureDelayNs      = int64(backPressureDelay)
+	VerifC03CloseSessionRequest      = int(closeSessionRequest)
+	VerifC03CloseSessionResponse     = int(closeSessionResponse)
+	VerifC03OpenSessionRequest       = int(openSessionRequest)
+	VerifC03OpenSessionResponse      = int(openSessionResponse)
+)
+
+// VerifC03MeasureCloseWait runs the real closeWithError(nil) on a bare attached session whose
+// send queue can never drain (no output loop is running and no underlay is attached, so the
+// direct write of the close request fails and is only logged). It returns how long the bounded
+// wait of the graceful close lasted. If stampAfter > 0, a helper stores the close request's
+// sequence number into lastSend after that duration, as output() would have done, so that the
+// granularity of the polling loop becomes visible to the caller.
+func VerifC03MeasureCloseWait(stampAfter time.Duration) time.Duration {
+	s := NewSession(9, true, 1400, nil, nil)
+	s.forwardStateTo(sessionAttached)
+	s.nextSend.Store(1) // as after the open request; with 0 the initial lastSend (0) already satisfies the wait
+	closeSeq := s.nextSend.Load()
+	if stampAfter > 0 {
+		go func() {
+			time.Sleep(stampAfter)
+			s.lastSend.Store(closeSeq)
+		}()
+	}
+	t0 := time.Now()
+	s.closeWithError(nil)
+	return time.Since(t0)
+}
